@@ -757,9 +757,9 @@ class ContextStateTransaction(_TransactionBase):
                                   old_state.Handle)
                 transaction_state = self.get_context_state(old_state.Handle)
                 transaction_state.ContextAssociation = pm_types.ContextAssociation.DISASSOCIATED
-                if transaction_state.UnbindingMdibVersion is None:
-                    transaction_state.UnbindingMdibVersion = self.new_mdib_version
-                    transaction_state.BindingEndTime = time.time()
+                # always the version of this transaction: a state that was associated again keeps no older unbinding data
+                transaction_state.UnbindingMdibVersion = self.new_mdib_version
+                transaction_state.BindingEndTime = time.time()
                 disassociated_state_handles.append(transaction_state.Handle)
         return disassociated_state_handles
 
